@@ -138,6 +138,15 @@ def frame_job(c, which):
         if hasattr(dobj, 'enable_FD') and dobj is not obj:
             dobj.enable_FD(1e-6); unchanged(f'derived[{k}].enable_FD')
             if hasattr(obj, 'FD_enabled'): c.holds(f'derived[{k}].enable_FD_does_not_leak_to_original', not obj.FD_enabled)
+    # --- REFUSED calls (unknown keyword; evaluation without its variables) on the original and on a copy leave everything unchanged and usable
+    obs_sibling = _observables(derived[1]) if cond is not None else None
+    for tname, tgt in [('original', obj)] + ([('derived[0]', derived[0])] if cond is not None else []):
+        for opname, op in (('conditioning_on_an_unknown_keyword', lambda t=tgt: t(zz_unknown_keyword=1.0)), ('evaluation_with_an_unknown_keyword', lambda t=tgt: t.logd(zz_unknown_keyword=1.0))):
+            try: op()
+            except Exception: pass
+            unchanged(f'refused_{opname}_on_{tname}')
+    if cond is not None:
+        c.holds('copies_made_earlier_answer_queries_as_before_the_refused_calls', _observables(derived[1]) == obs_sibling, note=f"{_observables(derived[1])} vs {obs_sibling}")
     if which in STAGE2 and len(derived) == 2:
         # staged conditioning: the intermediate object and its sibling stay what they were when a further variable is fixed
         Si, Ss = frame.snapshot(derived[0], EXC), frame.snapshot(derived[1], EXC)
